@@ -4,7 +4,7 @@
 use bytes::Bytes;
 use qbase::{
     error::ErrorKind,
-    frame::{MaxStreamDataFrame, ResetStreamFrame, StopSendingFrame, StreamCtlFrame, StreamFrame},
+    frame::{MaxStreamDataFrame, ResetStreamFrame, StopSendingFrame, StreamCtlFrame, StreamDataBlockedFrame, StreamFrame},
     role::Role,
     sid::{Dir, StreamId},
     varint::VarInt,
@@ -12,7 +12,7 @@ use qbase::{
 use serde::{Deserialize, Serialize};
 use simcore::{Outcome, Rng};
 
-use crate::{Case, Mode, Side, endpoint::Ep};
+use crate::{Case, Mode, Side, endpoint::{Ep, sid_key}};
 
 #[derive(Clone, Debug, Serialize, Deserialize)]
 pub enum Forged {
@@ -32,6 +32,11 @@ pub enum Forged {
     StreamBeyondConnWindow { bidi: bool },
     /// data after FIN / FIN below data / second FIN elsewhere / RESET with another size, on a fresh stream
     FinalSize { bidi: bool, case: u8 },
+    /// the first frame ever seen on a fresh peer-initiated stream is not a STREAM frame but STREAM_DATA_BLOCKED (0),
+    /// RESET_STREAM (1), STOP_SENDING (2) or MAX_STREAM_DATA (3) — the STREAM packet was lost or reordered.
+    /// `beyond`: the stream index is at/over the advertised count (must be STREAM_LIMIT_ERROR); otherwise the frame
+    /// is legal, opens the stream and every lower-numbered one, and each is offered by accept exactly once, in order
+    CtlOnFresh { bidi: bool, kind: u8, beyond: bool },
     /// a final size (lone FIN when `reset` is false, RESET_STREAM otherwise) one byte beyond the advertised stream
     /// window (`conn` false) or beyond the advertised connection window (`conn` true) on a fresh peer-initiated stream
     FinalSizeBeyondWindow { bidi: bool, reset: bool, conn: bool },
@@ -60,7 +65,8 @@ pub fn generate(r: &mut Rng, mode: Mode, _case: &Case) -> Byz {
             _ => Forged::ResetThenStream { bidi },
         }
     } else {
-        match r.below(7) {
+        match r.below(9) {
+            7 | 8 => Forged::CtlOnFresh { bidi, kind: if bidi { r.below(4) as u8 } else { r.below(2) as u8 }, beyond: r.one_in(2) },
             0 => Forged::StreamBeyondLimit { bidi, over: *r.pick(&[0u64, 1, 5, 1000, 1 << 40]), len: r.below(50) as u16 },
             1 => Forged::StreamOnOwnUni { idx: r.below(4) },
             2 => Forged::ResetOnOwnUni { idx: r.below(4) },
@@ -114,7 +120,6 @@ fn deliver_ctl(ep: &mut Ep, f: StreamCtlFrame) -> Result<(), qbase::error::Error
 
 /// Deliver the forged frame; returns true when the run ends with it (the connection would be closed).
 pub fn apply(b: &Byz, eps: &mut [Ep; 2], case: &Case, accepted: &[Vec<u64>; 2], out: &mut Outcome, step: u32) -> bool {
-    let _ = accepted;
     let ep = &mut eps[b.target.idx()];
     if ep.failed.is_some() {
         return true;
@@ -205,6 +210,64 @@ pub fn apply(b: &Byz, eps: &mut [Ep; 2], case: &Case, accepted: &[Vec<u64>; 2], 
             }
             let res = run(&mut || deliver_stream(ep, sid, conn, 1, false));
             verdict(out, &format!("STREAM [{conn}..{}) on {sid:?}, advertised connection limit {conn}", conn + 1), "connection", &[ErrorKind::FlowControl], "rx-overlimit-not-detected", res);
+        }
+        Forged::CtlOnFresh { bidi, kind, beyond } => {
+            let d = if *bidi { 0 } else { 1 };
+            let dir = if *bidi { Dir::Bi } else { Dir::Uni };
+            let idx = if *beyond { ep.adv_streams[d] + 1 } else { accepted_count(ep, pr, *bidi) };
+            if !*beyond && idx >= ep.adv_streams[d] {
+                return false;
+            }
+            let sid = StreamId::new(pr, dir, idx.min((1 << 60) - 1));
+            let (f, name) = match kind {
+                0 => (StreamCtlFrame::StreamDataBlocked(StreamDataBlockedFrame::new(sid, VarInt::from_u32(0))), "stream_data_blocked"),
+                1 => (StreamCtlFrame::ResetStream(ResetStreamFrame::new(sid, VarInt::from_u32(1), VarInt::from_u32(0))), "reset_stream"),
+                2 => (StreamCtlFrame::StopSending(StopSendingFrame::new(sid, VarInt::from_u32(1))), "stop_sending"),
+                _ => (StreamCtlFrame::MaxStreamData(MaxStreamDataFrame::new(sid, VarInt::from_u32(1 << 20))), "max_stream_data"),
+            };
+            let res = run(&mut || deliver_ctl(ep, f));
+            if *beyond {
+                verdict(out, &format!("{name} as the first frame on peer stream index {idx}, advertised count {}", ep.adv_streams[d]), &format!("{}:index-above-limit:{name}", if *bidi { "bidi" } else { "uni" }), &[ErrorKind::StreamLimit], "peer-beyond-limit", res);
+                return true;
+            }
+            match res {
+                Err(rec) => out.violate("no-panic", rec.site(), format!("{name} on fresh {sid:?}: {} at {}", rec.message, rec.location), step as u64),
+                Ok(Err(e)) => out.violate("unexpected-error", format!("{:?}", e.kind()), format!("legal {name} as the first frame on fresh peer stream {sid:?} (index {idx} < advertised count {}) rejected: {e}", ep.adv_streams[d]), step as u64),
+                Ok(Ok(())) => {
+                    // implicit open: accept must now yield every stream of that kind not yet yielded, up to `idx`, in order
+                    let kind_bits = sid_key(sid) & 3;
+                    let already = accepted[b.target.idx()].iter().filter(|k| (**k & 3) == kind_bits).count() as u64;
+                    let task = simcore::wake::Task::new();
+                    let mut got: Vec<u64> = Vec::new();
+                    for _ in 0..=idx + 1 {
+                        let r: std::task::Poll<Option<StreamId>> = if *bidi {
+                            let mut fut = ep.ds.accept_bi(&ep.params);
+                            match task.poll_pin(std::pin::Pin::new(&mut fut)) {
+                                std::task::Poll::Ready(Ok((s, _))) => std::task::Poll::Ready(Some(s)),
+                                std::task::Poll::Ready(Err(_)) => std::task::Poll::Ready(None),
+                                std::task::Poll::Pending => std::task::Poll::Pending,
+                            }
+                        } else {
+                            let mut fut = ep.ds.accept_uni();
+                            match task.poll_pin(std::pin::Pin::new(&mut fut)) {
+                                std::task::Poll::Ready(Ok((s, _))) => std::task::Poll::Ready(Some(s)),
+                                std::task::Poll::Ready(Err(_)) => std::task::Poll::Ready(None),
+                                std::task::Poll::Pending => std::task::Poll::Pending,
+                            }
+                        };
+                        match r {
+                            std::task::Poll::Ready(Some(s)) => got.push(s.id()),
+                            _ => break,
+                        }
+                    }
+                    let want: Vec<u64> = (already..=idx).collect();
+                    if got != want {
+                        out.violate("implicit-open", format!("first-frame:{name}"), format!("{name} as the first frame on peer stream index {idx} ({}): accept then yielded indices {:?}, expected {}..={idx} once each, in order ({} of that kind had been yielded before)", if *bidi { "bidi" } else { "uni" }, &got[..got.len().min(8)], already, already), step as u64);
+                    } else {
+                        out.stats.bump("probe.implicit_open_by_control_frame");
+                    }
+                }
+            }
         }
         Forged::FinalSizeBeyondWindow { bidi, reset, conn } => {
             let d = if *bidi { 0 } else { 1 };
